@@ -171,11 +171,15 @@ def build_jobs(chk: Check, thorough: bool, rng) -> List[Dict[str, Any]]:
                   "title-pair": ['FILE "image.bin" BINARY\n', "  TRACK 01 AUDIO\n", f'    TITLE "A{run_}B L"\n', "    INDEX 01 00:00:00\n",
                                  "  TRACK 02 AUDIO\n", f'    TITLE "A{run_}B R"\n', "    INDEX 01 00:00:02\n"],
                   "file": [f'FILE "{run_}" BINARY\n', "  TRACK 01 AUDIO\n", "    INDEX 01 00:00:00\n"],
+                  # a quote that is never closed (a cut-off line): 60 kB and 40 characters
+                  "title-open": ['FILE "image.bin" BINARY\n', "  TRACK 01 AUDIO\n", f'    TITLE "A{run_}B\n', "    INDEX 01 00:00:00\n"],
+                  "title-open-short": ['FILE "image.bin" BINARY\n', "  TRACK 01 AUDIO\n", f'    TITLE "A{run_[:40]}B\n', "    INDEX 01 00:00:00\n"],
+                  "file-open": [f'FILE "{run_[:40]}\n', "  TRACK 01 AUDIO\n", "    INDEX 01 00:00:00\n", 'FILE "image.bin" BINARY\n', "  TRACK 01 AUDIO\n", "    INDEX 01 00:00:00\n"],
                   "track": ['FILE "image.bin" BINARY\n', f"  TRACK 01 {run_}\n", "    INDEX 01 00:00:00\n"],
                   "index": ['FILE "image.bin" BINARY\n', "  TRACK 01 AUDIO\n", f"    INDEX 01 {run_}:00:00\n"],
                   "remark": ['FILE "image.bin" BINARY\n', f"REM {run_}\n", "  TRACK 01 AUDIO\n", "    INDEX 01 00:00:00\n"]}
         for sn, lines_ in sorted(shapes.items()):
-            if not thorough and sn in ("track", "index", "remark") and rn not in ("blanks", "digits", "words"):
+            if not thorough and sn in ("track", "index", "remark", "title-open", "file-open") and rn not in ("blanks", "digits", "words"):
                 continue
             jobs.append({"label": "cue-long-line", "faults": [[sn, rn]], "names": [(sn, rn)], "data": "".join(lines_).encode("ascii"),
                          "paths": ["", "A"], "suffix": ".cue", "extra": {"image.bin": bytes(2352 * 8)}})
